@@ -40,16 +40,34 @@ func c14new(kind string, par bool, n int) satisfier {
 	return logic.NewThrowEventSatisfier(&te, event.WrappingDefinitionInstanceBuilder)
 }
 
+var c14seq int
+
 // one case: a fresh satisfier and a history; idx -1 = an event matching no definition
 func c14case(out *rec.Out, kind string, par bool, n int, hist []int, stats map[string]int) {
 	out.Begin("c14", kind, rec.B(par), n)
 	s := c14new(kind, par, n)
+	// half of the cases hand in ONE event object per signal, again and again (a sender that keeps its event value): two
+	// occurrences are two occurrences, whether or not they are the same Go value
+	c14seq++
+	reuse := c14seq%2 == 0
+	objs := map[string]*event.SignalEvent{}
+	if reuse {
+		stats["cases_reusing_one_event_object_per_signal"]++
+	}
 	for _, i := range hist {
 		name := "nomatch"
 		if i >= 0 {
 			name = fmt.Sprintf("sig%d", i)
 		}
-		m, c := s.Satisfy(event.NewSignalEvent(name))
+		ev := event.NewSignalEvent(name)
+		if reuse {
+			if o, ok := objs[name]; ok {
+				ev = o
+			} else {
+				objs[name] = ev
+			}
+		}
+		m, c := s.Satisfy(ev)
 		out.Line("ev %d %d %d", i, rec.B(m), c)
 		if m {
 			stats["fired"]++
